@@ -46,6 +46,11 @@
 (*   supportsTs   cache.supports_timestamp (what the configuration reads)  *)
 (*   storesTs     load_tile_metadata gives back the time of the store      *)
 (*                (otherwise it answers -1: "older than everything")       *)
+(*   cacheRuleWins  TileManager.expire_timestamp() answers the cache's own *)
+(*                refresh_before rule (if it has one) instead of the       *)
+(*                threshold the cleanup task has set                       *)
+(* A task option refresh = TRUE says that the cache is configured with a   *)
+(* refresh_before rule whose threshold is later than every tile.           *)
 (***************************************************************************)
 EXTENDS Integers, Sequences, FiniteSets, TLC
 
@@ -58,7 +63,7 @@ CONSTANTS
   MetaSize,    \* tiles per meta tile and axis (clamped to the grid size of the level)
   Covs,        \* [coverage name -> set of rectangles <<x0, y0, x1, y1>>]  (partial coverages)
   Backends,    \* set of backend feature records
-  Tasks,       \* set of [levels, mode, cov, dry] the configuration layer is asked for
+  Tasks,       \* set of [levels, mode, cov, dry, refresh] the configuration layer is asked for
   MinTiles,    \* Configure happens only once that many tiles are stored (steers simulation)
   MaxTiles,    \* bound on the number of stored tiles
   QueueCap,    \* capacity of the worker queue (= concurrency)
@@ -81,7 +86,7 @@ VARIABLES
 vars == <<bk, tiles, junk, task, before, junk0, free, pc, strategy, todo, visited, queue>>
 
 None == "none"
-NoTask == [levels |-> {}, all |-> FALSE, cov |-> "full", dry |-> FALSE, complete |-> FALSE]
+NoTask == [levels |-> {}, all |-> FALSE, cov |-> "full", dry |-> FALSE, complete |-> FALSE, refresh |-> FALSE]
 Classes == {"before", "same", "after"}
 
 Min(a, b) == IF a < b THEN a ELSE b
@@ -177,7 +182,8 @@ Configure(t) ==
                         all      |-> (t.mode = "all" \/ (~bk.supportsTs /\ t.mode = "default")),
                         cov      |-> t.cov,
                         dry      |-> t.dry,
-                        complete |-> (t.cov = "full")]
+                        complete |-> (t.cov = "full"),
+                        refresh  |-> t.refresh]
   /\ free' = Free'
 
 \* cleanup(): which of the three procedures handles the task
@@ -249,6 +255,7 @@ HandleRange(m) ==
   LET ts   == TilesIn(m)
       pres == ts \cap Present
   IN  IF task.all THEN <<ts, ts>>
+      ELSE IF task.refresh /\ bk.cacheRuleWins THEN <<pres, pres>>     \* is_stale asks the cache's rule, not T
       ELSE <<{a \in pres : Cls(a) = "before"}, {a \in pres : Cls(a) \in {"before", "same"}}>>
 \* the walker works on the meta tiles that intersect the coverage
 MustWork(m) == Intersects(m, task.cov)
